@@ -1,7 +1,9 @@
 package main
 
 import (
+	"bufio"
 	"bytes"
+	"encoding/json"
 	"fmt"
 	"math/rand"
 	"os"
@@ -39,8 +41,83 @@ func assemble(w gbRec, cached bool) poly.Sequence {
 	return s
 }
 
+// c03One writes x eight times, reads it back and emits the event C03_Trace judges
+func c03One(x poly.Sequence, mode int, viaFile bool, emit func(interface{})) {
+	ev := map[string]interface{}{"mode": mode}
+	func() {
+		defer func() {
+			if r := recover(); r != nil {
+				ev["panic"] = fmt.Sprint(r)
+			}
+		}()
+		first := genbank.Build(x)
+		det := true
+		for j := 0; j < 7; j++ {
+			if !bytes.Equal(genbank.Build(x), first) {
+				det = false
+			}
+		}
+		text := first
+		if viaFile {
+			p := tmpFile(nil)
+			genbank.Write(x, p)
+			text, _ = os.ReadFile(p)
+			os.Remove(p)
+		}
+		back := genbank.Parse(text)
+		px, pb := projectGb(x), projectGb(back)
+		locsok := len(x.Features) == len(back.Features)
+		for fi := range x.Features {
+			if locsok && !reflect.DeepEqual(x.Features[fi].SequenceLocation, back.Features[fi].SequenceLocation) {
+				locsok = false
+			}
+		}
+		if mode == 2 { // no cached location text: the text in the file is whatever the writer derives from the structure
+			for fi := range px.Feats {
+				px.Feats[fi].Loc = genbank.BuildLocationString(x.Features[fi].SequenceLocation)
+			}
+		}
+		ev["x"], ev["reparsed"], ev["deterministic"], ev["locsok"], ev["panic"] = px, pb, det, locsok, ""
+		ev["lines"] = strings.Split(strings.TrimSuffix(string(text), "\n"), "\n")
+	}()
+	if ev["panic"] != "" {
+		ev["x"], ev["reparsed"], ev["deterministic"], ev["locsok"], ev["lines"] = gbRec{}.canon(), gbRec{}.canon(), true, true, []string{}
+	}
+	emit(ev)
+}
+
 func c03Record(tier string, seed int64, emit func(interface{})) {
 	rng := rand.New(rand.NewSource(seed))
+	// S->I part: every (record, layout) the specification enumerated in C01_MC, as parsed image and as assembled structure
+	if path := os.Getenv("C03_CASES"); path != "" {
+		f, err := os.Open(path)
+		if err != nil {
+			fatal("C03 cases: %v", err)
+		}
+		sc := bufio.NewScanner(f)
+		sc.Buffer(make([]byte, 1<<20), 1<<26)
+		n := 0
+		for sc.Scan() {
+			raw, err := unwrap(sc.Bytes())
+			if err != nil {
+				fatal("C03 case line: %v", err)
+			}
+			var cs struct {
+				Lines    []string
+				Expected gbRec
+			}
+			if err := json.Unmarshal(raw, &cs); err != nil {
+				fatal("C03 case: %v", err)
+			}
+			n++
+			c03One(genbank.Parse([]byte(strings.Join(cs.Lines, "\n")+"\n")), 0, n%5 == 0, emit)
+			if n%4 == 0 { // the abstract record is the same for all layouts of one record
+				c03One(assemble(cs.Expected, true), 1, false, emit)
+				c03One(assemble(cs.Expected, false), 2, false, emit)
+			}
+		}
+		f.Close()
+	}
 	n, maxSeq, maxFeats := 40, 2500, 12
 	if tier == "thorough" {
 		n, maxSeq, maxFeats = 400, 100000, 40
@@ -65,47 +142,7 @@ func c03Record(tier string, seed int64, emit func(interface{})) {
 		default:
 			x = assemble(want, false)
 		}
-		ev := map[string]interface{}{"mode": mode}
-		func() {
-			defer func() {
-				if r := recover(); r != nil {
-					ev["panic"] = fmt.Sprint(r)
-				}
-			}()
-			first := genbank.Build(x)
-			det := true
-			for j := 0; j < 7; j++ {
-				if !bytes.Equal(genbank.Build(x), first) {
-					det = false
-				}
-			}
-			text := first
-			if rng.Intn(4) == 0 {
-				p := tmpFile(nil)
-				genbank.Write(x, p)
-				text, _ = os.ReadFile(p)
-				os.Remove(p)
-			}
-			back := genbank.Parse(text)
-			px, pb := projectGb(x), projectGb(back)
-			locsok := len(x.Features) == len(back.Features)
-			for fi := range x.Features {
-				if locsok && !reflect.DeepEqual(x.Features[fi].SequenceLocation, back.Features[fi].SequenceLocation) {
-					locsok = false
-				}
-			}
-			if mode == 2 { // no cached location text: the text in the file is whatever the writer derives from the structure
-				for fi := range px.Feats {
-					px.Feats[fi].Loc = genbank.BuildLocationString(x.Features[fi].SequenceLocation)
-				}
-			}
-			ev["x"], ev["reparsed"], ev["deterministic"], ev["locsok"], ev["panic"] = px, pb, det, locsok, ""
-			ev["lines"] = strings.Split(strings.TrimSuffix(string(text), "\n"), "\n")
-		}()
-		if ev["panic"] != "" {
-			ev["x"], ev["reparsed"], ev["deterministic"], ev["locsok"], ev["lines"] = gbRec{}.canon(), gbRec{}.canon(), true, true, []string{}
-		}
-		emit(ev)
+		c03One(x, mode, rng.Intn(4) == 0, emit)
 	}
 }
 
